@@ -1363,7 +1363,7 @@ func ssaWriterVariation(R *runner, r *rng, s *astisub.Subtitles) {
 }
 
 func suiteSsaModel(R *runner, r *rng) {
-	R.rule("ssa model: the extracted Coq model against the implementation on the same inputs - ssareadm (rendered ground-truth documents, documents written by the library, 1..3 line/byte mutations of rendered documents, hand-written corner documents; result class and projected value, class only outside the model's float domain), ssawritem (written bytes for ground-truth models, for variations exercising nil metadata/styles/attributes, keys differing from identifiers, duplicate identifiers, nil elements inside Items (model input: the list without them), lines without runs, items without lines, odd durations and integers, thousandth floats, and for every value returned by the reader), row level through the hooks: style rows and event rows against random Formats (permutations, subsets, aliases, unknown and duplicate names, every cell encoding), their string forms, colours, times, text splitting, item text, style references with '*', script info bytes, float spelling; non-trivial = accepted input with content")
+	R.rule("ssa model: the extracted Coq model against the implementation on the same inputs - ssareadm (rendered ground-truth documents with the extra lines of the ssa suite (unknown script-info keys, comments in every section and before the first header, second Format lines), documents written by the library, 1..3 line/byte mutations of rendered documents, hand-written corner documents; result class and projected value, class only outside the model's float domain), ssawritem (written bytes for ground-truth models, for variations exercising nil metadata/styles/attributes, keys differing from identifiers, duplicate identifiers, nil elements inside Items (model input: the list without them), lines without runs, items without lines, odd durations and integers, thousandth floats, and for every value returned by the reader), row level through the hooks: style rows and event rows against random Formats (permutations, subsets, aliases, unknown and duplicate names, every cell encoding), their string forms, colours, times, text splitting, item text, style references with '*', script info bytes, float spelling; non-trivial = accepted input with content")
 	defer func() { R.countN("ssa.writem.nil_item", ssaNilItemCases); ssaNilItemCases = 0 }()
 	ssaCellsOn() // every cell spelling of the characterisation in the rendered documents; counted as ssa.cell.*
 	defer ssaCellsFlush(R)
@@ -1375,7 +1375,7 @@ func suiteSsaModel(R *runner, r *rng) {
 	for c := 0; c < N; c++ { // (a) rendered ground truth, and the read -> write correspondence
 		d := randSsaDoc(r)
 		ssaVary(r, d)
-		doc, _, _ := renderSsa(r, d)
+		doc, _, _, _ := renderSsaWith(r, d, newSsaExtras(R, c, 2))
 		o, s := ssaReadModelObs(doc, "ssa.readm", map[string]interface{}{"kind": "rendered"})
 		R.count("ssa.readm.rendered")
 		R.add(o)
@@ -1400,7 +1400,7 @@ func suiteSsaModel(R *runner, r *rng) {
 	for c := 0; c < 2*N; c++ { // (c) mutated
 		d := randSsaDoc(r)
 		ssaVary(r, d)
-		doc, _, _ := renderSsa(r, d)
+		doc, _, _, _ := renderSsaWith(r, d, newSsaExtras(R, c, 3))
 		doc = mutateSsaDoc(R, r, doc)
 		o, s := ssaReadModelObs(doc, "ssa.readm.mutated", map[string]interface{}{"kind": "mutated"})
 		R.count("ssa.readm.mutated")
